@@ -163,10 +163,17 @@ func (c *c42Chain) serve(call string) (bool, bool) {
 				c.finishIfDone()
 			}()
 		} else {
-			c.problems = append(c.problems, c42Problem{
-				key:  fmt.Sprintf("step:%s:expected=%s,observed=%s", s.Get("a").Str(), want, call),
-				what: fmt.Sprintf("at specification step %s the client must call %s, the real code called %s", s.Get("a").Str(), want, call),
-				step: c.cur})
+			if want == "" {
+				c.problems = append(c.problems, c42Problem{
+					key:  "step:check-over:observed=" + call,
+					what: "the specification's check is over (it returned here), the real code went on and called " + call,
+					step: c.cur})
+			} else {
+				c.problems = append(c.problems, c42Problem{
+					key:  fmt.Sprintf("step:%s:expected=%s,observed=%s", s.Get("a").Str(), want, call),
+					what: fmt.Sprintf("at specification step %s the client must call %s, the real code called %s", s.Get("a").Str(), want, call),
+					step: c.cur})
+			}
 			c.abort()
 		}
 	} else {
